@@ -83,7 +83,8 @@ def case_strategy():
         st.tuples(st.integers(-3, 3), st.text(max_size=3)).map(lambda t: {"k": "pickle", "v": enc(t)}),
     )
     op = st.sampled_from(["keep", "rekeep", "load", "reopen", "legacy", "keep_both", "keep", "new_view", "faulty_keep", "same_once", "same_twice",
-                          "rekeep_live", "revert_live", "rekeep_live", "revert_live", "legacy_min", "probe_other", "torn_meta", "switch_commit"])
+                          "rekeep_live", "revert_live", "rekeep_live", "revert_live", "legacy_min", "probe_other", "torn_meta", "switch_commit",
+                          "faulty_record1", "faulty_record2", "faulty_record3"])
 
     @st.composite
     def gen(draw):
@@ -118,6 +119,13 @@ def _fail_next_cp(sub):
     from ..harness import worker
 
     worker.STATE["dbutils"].fs.fail_next = ("cp", sub)
+    return True
+
+
+def _fail_puts(sub, n):
+    from ..harness import worker
+
+    worker.STATE["dbutils"].fs.fail_puts = [sub, n] if n else None
     return True
 
 
@@ -362,6 +370,25 @@ def check_case(case, ev=None, scratch=None):
                     raise Violation(f"{what}: {when}: the copy into the data directory failed but keep reported success", case)
                 w.call("call", module="vf.props.c19", func="_fail_next_cp", args=["<never>"])
                 do_keep("f", ["/out/v"], when + " (retry after a failed copy)")
+                stats["rekeep"] += 1
+            elif op.startswith("faulty_record"):
+                # the writes of the redirect record fail n times in a row while changed code is kept: the keep either fails
+                # (nothing is claimed then) or, if it returns, has committed the path like any keep that returns
+                ver = (ver + 1) % 3
+                mt[0] += 10
+                write_sources(root, ver, mt[0])
+                start()
+                w.call("call", module="vf.props.c19", func="_fail_puts", args=["_dds_meta", int(op[-1])])
+                r = w.call("eval", module="pk.m0", func="f", style="direct")
+                w.call("call", module="vf.props.c19", func="_fail_puts", args=["_dds_meta", 0])
+                if r["exc"] is None:
+                    if not same(r["value"], values[ver]):
+                        raise Violation(f"{what}: {when}: keep returned {short(r['value'])}, expected {short(values[ver])}", case)
+                    committed["/out/v"] = (r["sigs"]["/out/v"], values[ver])
+                    check_tree(when + f" (keep returned although {op[-1]} consecutive writes of the redirect record failed)")
+                    do_load(when + f" (keep returned although {op[-1]} consecutive writes of the redirect record failed)")
+                do_keep("f", ["/out/v"], when + " (retry after failed writes of the redirect record)")
+                do_load(when + " (retry after failed writes of the redirect record)")
                 stats["rekeep"] += 1
             elif op in ("legacy", "legacy_min"):
                 bd = os.path.join(dbroot, "internal", "blobs")
